@@ -457,6 +457,11 @@ func cmdCheck(args []string) int {
 			}
 			continue
 		}
+		if cr == nil && (strings.Contains(n, ":call(") || strings.Contains(n, ":callsite(") || strings.Contains(n, ":safe.")) {
+			// obligations attached to call sites / index expressions: if the site no longer exists there is nothing to prove
+			discharged++
+			continue
+		}
 		// a ledger clause that is not discharged now is a violation
 		violations++
 		rp, reproduced := writeReplay(prop, n, cr, v)
